@@ -81,9 +81,30 @@ def dedup : List PObj → List PObj
   | [] => []
   | o :: rest => o :: (dedup rest).filter (fun o' => o' ≠ o)
 
-/-- `Plane.find`. -/
-def find (p : Plane) (q : Rect) : List PObj :=
+/-- `self._order[obj]`: the length of `_seq` right after the latest `add(obj)` (0: never added). -/
+def rankIn : List PObj → PObj → Nat → Nat → Nat
+  | [], _, _, acc => acc
+  | x :: rest, o, i, acc => rankIn rest o (i + 1) (if x = o then i + 1 else acc)
+
+def rank (p : Plane) (o : PObj) : Nat := rankIn p.seq o 0 0
+
+/-- Stable insertion sort by a numeric key (`list.sort(key=…)`; structural, so that the kernel can
+evaluate it). -/
+def insertByKey (key : PObj → Nat) (x : PObj) : List PObj → List PObj
+  | [] => [x]
+  | y :: ys => if key x ≤ key y then x :: y :: ys else y :: insertByKey key x ys
+
+def sortByKey (key : PObj → Nat) : List PObj → List PObj
+  | [] => []
+  | x :: xs => insertByKey key x (sortByKey key xs)
+
+/-- What the scan of the grid cells collects (`found` before it is sorted). -/
+def findScan (p : Plane) (q : Rect) : List PObj :=
   (dedup ((getrange p q).flatMap (cell p.grid))).filter (fun o => overlaps o q)
+
+/-- `Plane.find`: the objects found in the cells, reported in insertion order. -/
+def find (p : Plane) (q : Rect) : List PObj :=
+  sortByKey (rank p) (findScan p q)
 
 /-- `Plane.__iter__`. -/
 def iter (p : Plane) : List PObj :=
